@@ -117,7 +117,7 @@ Fire(s) ==
     /\ store' = [store EXCEPT ![s.k] = NoEntry]
     /\ cur' = IF Sized /\ store[s.k] # NoEntry THEN cur - store[s.k].sz ELSE cur
     /\ sleepers' = sleepers \ {s}
-    /\ Log([ev |-> "fire1", k |-> s.k, id |-> s.id])
+    /\ Log([ev |-> "fire1", k |-> s.k, id |-> s.id, stale |-> (store[s.k] # NoEntry /\ store[s.k].v # s.id)])
     /\ last' = [ev |-> "fire"]
     /\ UNCHANGED <<now, cands, held, wr, nv, ok>>
 
